@@ -165,6 +165,8 @@ def lapack_cases(rng, n, maxn):
         cases.append("c13l %d %d %d %d %d |" % (kind, m, nn, r, seed))
     return cases
 
+# positions (after the condition number) of the bitwise receiver/argument comparisons in the harness output
+PURITY = {1: [2], 2: [5], 8: [5], 3: [5], 4: [2, 3, 4], 5: [2], 6: [1], 7: [1], 9: [4]}
 LK = {1: "Matrix::inverse", 2: "Matrix::pinverse", 3: "Matrix::svd", 4: "SymMatrix::solveLin", 5: "SymMatrix::inverse/invert",
       6: "SymMatrix::det", 7: "SymMatrix::posdefinverse", 8: "Matrix::pinverse(reltol)", 9: "nullspace_projector"}
 
@@ -198,9 +200,11 @@ def main(replay=None):
         if len(c.split()) > 6: nontriv.add(c)
         if m == i: continue
         mism += 1
-        impure = i.split()[-1:] == ["99"] and m.split()[-1:] != ["99"] and i.split()[:-1] == m.split()
+        it = i.split(); mt = m.split(); marks = []
+        while it and it[-1] in ("97", "98", "99") and len(it) > len(mt): marks.append(it.pop())
+        impure = bool(marks) and it == mt
         if impure:
-            what = "%s modified an operand it must not write" % name
+            what = "%s: %s" % (name, "; ".join({"99": "modified an operand it must not write", "98": "returned an object that shares storage with an operand (writing into the result changed the operand)", "97": "returned an object that shares storage with an operand (writing into the operand changed the result)"}[x] for x in sorted(set(marks))))
         elif cm == "ok" and ci == "ok":
             what = "%s returned values that differ from the definition" % name
         elif cm == "ok":
@@ -210,7 +214,7 @@ def main(replay=None):
         else:
             what = "%s: model %s, implementation %s" % (name, cm, ci)
         ws = c.split()[2:]
-        sig = "%s: %s" % (name, cm + "->" + ci)
+        sig = "%s: %s" % (name, (cm + "->" + ci) if not impure else "aliasing/purity " + "+".join(sorted(set(marks))))
         ck.violation(sig, "%s. The model outcome is the mathematically required one (Properties_C13.v proves the model equal to the definition for all shapes). case `%s` model=`%s` impl=`%s`" % (what, c[:300], m[:160], i[:160]),
                      dict(kind="correspondence", cases=[c], model=[m], impl=[i], replay_cmd="./check C13 --replay <this file>"))
 
@@ -246,7 +250,10 @@ def main(replay=None):
             cond = fl[0]; tol = 1e-9 * max(cond, 1.0)
             for k, r in enumerate(fl[1:]):
                 lworst[name] = max(lworst.get(name, 0.0), r / max(cond, 1.0))
-                if not (r <= tol):
+                if k in PURITY.get(kind, []) and not (r <= tol):
+                    ck.violation("%s: const operand modified" % name, "%s changed its receiver or an argument that it must not write (bitwise comparison with the snapshot taken before the call, slot %d). case `%s`" % (name, k, c),
+                                 dict(kind="lapack", lapack_cases=[c], impl=[o]))
+                elif not (r <= tol):
                     ck.violation("%s: equation %d" % (name, k), "%s violates its defining equation #%d: residual %.3g > %.3g (cond %.3g). case `%s`" % (name, k, r, tol, cond, c),
                                  dict(kind="lapack", lapack_cases=[c], impl=[o]))
     ck.cov.update(evaluations=len(cases) + len(lcases) + len(wc), distinct_nontrivial=len(nontriv),
